@@ -10,8 +10,8 @@ CFG = {
     "exhaustive": {"quick": True, "thorough": True},
     "exhaustive_note": "all operation sequences up to length 3 (quick) / 4 (thorough) over the 11-operation alphabet from a new font; the random part is not exhaustive",
     "trusted_base": COMMON_TRUST + [
-        "file-name assignment enters the container model as a parameter with the contracts AssignOK/AssignLOK (proved for the algorithm in Props/C07); "
-        "the driver instantiates it with the path the implementation assigned and the oracle rules check the contracts on the observed states",
+        "file-name assignment enters the container theorems as a parameter with the contracts AssignOK/AssignLOK (proved for the real algorithm in Props/C07Containers); "
+        "the driver instantiates it with the C07 model, so every assigned path is predicted exactly",
         "str::to_lowercase as a per-character table sent by the harness (no final-sigma in the pools)",
         "glyph contents are not part of this model (C01/C02); std::fs behaviour for the final save/load",
     ],
@@ -29,6 +29,6 @@ MANIFEST = {
              "sync_step_partial + counterexamples for the entry API (recorded finding). Correspondence: exhaustive short histories and random long ones through "
              "the real API, state compared after every step, save+load at the end."),
     "design_ref": "5 / C06, Appendix C",
-    "note": "trusted: Lean kernel + 3 standard axioms; harness/driver glue; file-name function as a contract-checked oracle in the driver (algorithm itself: C07); glyph contents not modelled",
+    "note": "trusted: Lean kernel + 3 standard axioms; harness/driver glue; file-name function = the C07 model (contracts proved in Props/C07Containers); glyph contents not modelled",
     "technique": "Lean 4 invariant proof by induction over operation histories + differential histories against the real containers",
 }
